@@ -42,6 +42,9 @@ except NameError:
 
 _REQ_ID_ITER = itertools.count()
 
+# characters werkzeug's redirect() leaves alone in a Location
+_QUERY_SAFE = ":/?#[]@!$&'()*+,;=%"
+
 
 def cast_to_route_factory(in_arg):
     if isinstance(in_arg, (Route, SubApplication)):
@@ -300,8 +303,14 @@ class Application(object):
                     if route.slash_mode == S_REDIRECT:
                         # norm_path is decoded; re-quote it so that '?', '#'
                         # and '%' in a segment stay part of the path
+                        query = request.query_string
+                        try:
+                            query = query.decode('utf8')
+                        except UnicodeDecodeError:
+                            # arbitrary bytes: keep them, percent-encoded
+                            query = url_quote(query, safe=_QUERY_SAFE)
                         parts = [request.url_root.rstrip('/'), url_quote(norm_path),
-                                 '?', request.query_string.decode('utf8')]
+                                 '?', query]
                         return redirect(''.join(parts))  # TODO: error_handler
                     elif route.slash_mode == S_STRICT:
                         nf_exc = err_handler.not_found_type(request=request,
